@@ -5,12 +5,20 @@ From VZ Require Import Model.K01_CooAcc Proofs.K01_CooAcc_list Proofs.K01_CooAcc
 Import ListNotations.
 Open Scope Z_scope.
 
-Definition keys_nonneg (l : list entry) : Prop := Forall (fun e => 0 <= e_key e) l.
+Section WithQ.
+(* Q : any property of (row, col, key) that every event has (e.g. key = col + mul * row): the accumulator only copies
+   (row, col, key) triples, so every live entry has it too *)
+Variable Q : Z * Z * Z -> Prop.
+
+Definition keys_nonneg (l : list entry) : Prop := Forall (fun e => 0 <= e_key e /\ Q (rck e)) l.
 
 Lemma keys_nonneg_rlc l : keys_nonneg l -> keys_nonneg (rlc l).
 Proof.
-  intros H. apply (rlc_forall (fun t => 0 <= snd t)). exact H.
+  intros H. apply (rlc_forall (fun t => 0 <= snd t /\ Q t)). exact H.
 Qed.
+
+Lemma keys_nonneg_keys l : keys_nonneg l -> Forall (fun e => 0 <= e_key e) l.
+Proof. intros H. eapply Forall_impl; [|exact H]. simpl. intros e He. apply He. Qed.
 
 Lemma keys_nonneg_perm a b : Permutation a b -> keys_nonneg a -> keys_nonneg b.
 Proof. intros P H. eapply Permutation_Forall; eassumption. Qed.
@@ -63,7 +71,7 @@ Proof.
   assert (PI : Permutation (A ++ B) I) by apply interleave_perm.
   assert (HAB : slice b lo up = A ++ B) by (apply seg_split; lia).
   assert (KI : keys_nonneg I) by (eapply keys_nonneg_perm; [exact PI|rewrite <- HAB; exact Hk]).
-  destruct (fold_step_sentinel I KI) as [T1 T2].
+  destruct (fold_step_sentinel I (keys_nonneg_keys I KI)) as [T1 T2].
   set (acc := fold_left step I [sentinel]) in *.
   rewrite T1, T2.
   assert (LI : zlen (rlc I) <= up - lo).
@@ -592,7 +600,7 @@ Proof.
       lia. }
     split; [exact L6|].
     split.
-    { pose proof (cnt_newdepth (mn c) (depth c) (ind c1)) as Q. fold m' in Q. lia. }
+    { pose proof (cnt_newdepth (mn c) (depth c) (ind c1)) as QQ. fold m' in QQ. lia. }
     split; [right; split; [reflexivity|lia]|].
     intros e' H1 H2 H3. rewrite (Huniq e' H1 H2 H3) by lia. exact L13.
   - (* the carry stopped at the free level e *)
@@ -906,9 +914,9 @@ Proof.
     rewrite (cnt_range_pos m2) by (try lia; intros j Hj; rewrite N1 by lia;
                                    apply PX, nthZ_in; lia).
     rewrite (cnt_range_nonpos m2) by (intros j Hj; rewrite N2 by lia; lia).
-    pose proof (cnt_range_npos m (Z.to_nat d) 0 ltac:(lia)) as Q.
-    replace (Z.to_nat d) with (length X) in Q at 1 by (unfold zlen in LX; lia).
-    rewrite (npos_filter m X 0 d SX) in Q. fold pos in Q.
+    pose proof (cnt_range_npos m (Z.to_nat d) 0 ltac:(lia)) as QQ.
+    replace (Z.to_nat d) with (length X) in QQ at 1 by (unfold zlen in LX; lia).
+    rewrite (npos_filter m X 0 d SX) in QQ. fold pos in QQ.
     rewrite Z2Nat.id by lia. replace (0 + zlen pos) with (zlen pos) by lia.
     change (2 ^ 0) with 1 in *. lia. }
   destruct (msd_ok (set_mn c m2) SO) as (c' & M1 & M2 & M3 & M4 & M5 & M6 & M7 & M8 & M9 & M10).
@@ -1062,7 +1070,7 @@ Proof.
 Qed.
 
 Lemma coo_append_ok limit c G ev :
-  1 <= limit -> Inv c G -> ind c <= cap c - 2 -> 20 <= cap c -> 0 <= e_key ev ->
+  1 <= limit -> Inv c G -> ind c <= cap c - 2 -> 20 <= cap c -> (0 <= e_key ev /\ Q (rck ev)) ->
   G + 2 < 2 ^ (zlen (mn c) - 1) ->
   exists c',
     coo_append limit c ev = Ok c' /\ Inv c' (G + 2) /\ ind c' <= cap c' - 2 /\ 20 <= cap c' /\
@@ -1174,4 +1182,42 @@ Proof.
   { pose proof (pow2_mono (mlen - 1) (zlen (mn c) - 1) ltac:(lia)). lia. }
   exists s. unfold run. rewrite E. cbn [bind]. split; [exact Ef|]. split; [|split; [exact Ss|apply Sf]].
   intros k. unfold denote. rewrite Uf, U. simpl. lia.
+Qed.
+
+End WithQ.
+
+(* ------------------------------------------------------------------ matrix cells *)
+(* the drivers' key: key = col + array_mul * row with 0 <= col < array_mul *)
+Definition wf_ev (mul : Z) (t : Z * Z * Z) : Prop :=
+  let '(r, c, k) := t in 0 <= c < mul /\ k = c + mul * r.
+
+Lemma cell_sumby mul l r c : 0 <= c < mul ->
+  Forall (fun e => wf_ev mul (rck e)) l -> cell l r c = sumby l (c + mul * r).
+Proof.
+  intros Hc. induction 1 as [|e t He Ht IH]; simpl; [reflexivity|]. rewrite IH. f_equal.
+  destruct e as [[[er ec] ev] ek]. simpl in *. destruct He as [H1 H2]. subst ek.
+  destruct (Z.eq_dec er r) as [->|Hr].
+  - rewrite Z.eqb_refl. simpl. destruct (Z.eq_dec ec c) as [->|Hcc].
+    + rewrite !Z.eqb_refl. reflexivity.
+    + replace (ec =? c) with false by (symmetry; apply Z.eqb_neq; exact Hcc).
+      replace (ec + mul * r =? c + mul * r) with false by (symmetry; apply Z.eqb_neq; lia). reflexivity.
+  - replace (er =? r) with false by (symmetry; apply Z.eqb_neq; exact Hr). simpl.
+    replace (ec + mul * er =? c + mul * r) with false; [reflexivity|].
+    symmetry. apply Z.eqb_neq. intros E. apply Hr. nia.
+Qed.
+
+Theorem run_cells limit n mlen mul evs :
+  1 <= limit -> 20 <= n -> 2 * zlen evs + 2 < 2 ^ (mlen - 1) ->
+  Forall (fun e => 0 <= e_key e /\ wf_ev mul (rck e)) evs ->
+  exists s, run limit n mlen evs = Ok s /\
+            (forall r c, 0 <= c < mul -> cell (live s) r c = cell evs r c) /\
+            StronglySorted Z.lt (map e_key (live s)).
+Proof.
+  intros Hl Hn HG Hev.
+  destruct (run_total (wf_ev mul) limit n mlen evs Hl Hn Hev HG) as (s & E & D & S & K).
+  exists s. split; [exact E|]. split; [|exact S].
+  intros r c Hc. rewrite (cell_sumby mul (live s) r c Hc), (cell_sumby mul evs r c Hc).
+  - apply D.
+  - eapply Forall_impl; [|exact Hev]. simpl. intros e He. apply He.
+  - eapply Forall_impl; [|exact K]. simpl. intros e He. apply He.
 Qed.
